@@ -234,11 +234,12 @@ class Image(Species):
         elif im_l.energy < im_r.energy:
             tau = tau_plus * dv_max + tau_minus * dv_min
 
-        elif im_r.energy < im_l.energy:
+        else:
             tau = tau_plus * dv_min + tau_minus * dv_max
 
-        else:
-            raise RuntimeError("Something went very wrong in the NEB!")
+        if dv_max == 0:
+            # All three energies are identical, so use the bisector
+            tau = tau_plus + tau_minus
 
         # Normalised τ vector and coordinates of the images
         return tau / np.linalg.norm(tau), x_l, x, x_r
